@@ -103,10 +103,15 @@ pub trait DID:
 /// value then panic with an out-of-bounds slice (e.g. for `did:example:abc%20`); a delimiter (`/`, `?`, `#`) directly
 /// behind an octet is swallowed into the preceding component. Such input is refused here.
 pub(crate) fn check_percent_encoded_octets(input: &str) -> Result<(), Error> {
-  // (the parser ignores control characters and spaces at both ends of its input)
-  let input: &[u8] = input
-    .trim_matches(|ch: char| ch.is_ascii_control() || ch.is_ascii_whitespace())
-    .as_bytes();
+  // The parser ignores control characters and spaces at both ends of its input, but keeps them in the string that its
+  // offsets refer to: behind leading ones every component is read from the wrong place (`" did:example:123#key"` has
+  // the method id `":12"` and turns into the DID Url `" did:example:12#key"`), trailing ones end up in the last
+  // component. Neither is part of a DID or DID Url.
+  let trimmed: &str = input.trim_matches(|ch: char| ch.is_ascii_control() || ch.is_ascii_whitespace());
+  if trimmed.len() != input.len() {
+    return Err(Error::Other("leading or trailing whitespace or control characters"));
+  }
+  let input: &[u8] = trimmed.as_bytes();
   let method_id_end: usize = input
     .iter()
     .position(|byte| matches!(byte, b'/' | b'?' | b'#'))
